@@ -1,4 +1,5 @@
 """C10 - the MATLAB toolbox contains exactly the declared classes, functions, enums (Engines E, F)."""
+from .. import rules_flow as RF
 from .. import rules_matlab as RM
 
 ID = "C10"
@@ -13,7 +14,9 @@ EXPLANATION = (
     "block are appended unconditionally, methods/property accessors iff the class has any, and the classdef "
     "names the declared base or handle. T5: the MEX source entry is added by the top-level call only and is the "
     "file generate_wrapper fills. T6: overloads are grouped by name across the whole list (one function file / "
-    "one method per distinct name even when overloads are not adjacent). That each file's *content* is right is C05/C06/C11.")
+    "one method per distinct name even when overloads are not adjacent). T7: scalar state the wrapper keeps on "
+    "self while it works through classes (e.g. 'this class has serialize()') is assigned on every path before "
+    "it is read, so no class inherits members from the class wrapped before it. That each file's *content* is right is C05/C06/C11.")
 ASSUMPTIONS = ["generate_content materialises (folder, [(file, text)]) entries as nested +package folders (read, not re-proved)"]
 
 
@@ -24,3 +27,4 @@ def run(ctx, rep):
     rep.run(RM.rule_classdef_complete, ctx, rep, "T4")
     rep.run(RM.rule_one_mex_source, ctx, rep, "T5")
     rep.run(RM.rule_group_by_name, ctx, rep, "T6")
+    rep.run(RF.rule_item_state_defined_before_use, ctx, rep, "T7", packages=("gtwrap/matlab_wrapper",), min_classes=3)
